@@ -342,6 +342,13 @@ class VC:
             self.assumptions_used.add('finite sums are linear (meta-theorem) - used by ' + name)
         return Sf, Sg
 
+    def sum_step(self, k, f):
+        """Definition of a finite sum: Sum_{m<k+1} f(m) = Sum_{m<k} f(m) + f(k), Sum_{m<0} = 0 (k >= 0)."""
+        Sk = L.sum_term(k, f)
+        Sk1 = L.sum_term(k + 1, f)
+        self.assume(Sym.lift(Sk1) == Sk + f(k))
+        return Sk, Sk1
+
     def cover(self, name):
         """Reachability/vacuity guard: the current path condition is satisfiable."""
         self._sync_side()
